@@ -11,6 +11,12 @@
   Implementations are data: small first-order programs (`Body`).  Python's recursion limit is the fuel: running
   out of fuel is `RecursionError`.  ONE structural recursion on the fuel (`eval`); import-free; executable; tied
   to the code by driver/props/c07.py.
+
+  The state carries four GHOST fields that no python program can observe (`PyrollProofs/FailureLemmas.eval_core`
+  proves that they influence neither results nor the observable state); they name the explicit hypotheses of the
+  C07 theorems and are compared with the harness' own observations: `hitLimit`, `sawCycle`, `reading`/`reentered`.
+  Wrapper implementations (generator protocol) are not modelled here (C01 models them); the C07 oracle exercises
+  them on the real code.
 -/
 
 namespace Failure
